@@ -121,7 +121,7 @@ class Gen:
             if svars and k < 0.25:
                 a, ta = self.str_expr()
                 b, tb = self.str_expr()
-                op = r.choice(["==", "!="])
+                op = r.choice(["==", "!=", "?", "!?"] if self.has("sugar") else ["==", "!="])       # (? : contains)
                 return {"k": "b", "op": op, "a": a, "b": b}, "(%s %s %s)" % (ta, op, tb)
             if k < 0.65 or depth >= 2:
                 a, ta = self.expr(depth + 1)
